@@ -284,6 +284,15 @@ struct Driver {
             for (size_t i = 0; i < j; ++i) --a;
             if (!(a == pr.first) || a->idx() != pr.first->idx()) backok = false;
         }
+        // the whole sequence backwards (all laps): from the last position, -- until invalid = forward sequence reversed
+        if (n > 0 && n < cap) {
+            auto a = pr.first;
+            for (size_t i = 0; i + 1 < n; ++i) ++a;
+            std::vector<int> back;
+            while (a.valid() && back.size() < n + 2) { back.push_back(a->idx()); --a; }
+            if (back.size() != n) backok = false;
+            else for (size_t i = 0; i < n; ++i) if (back[i] != seq[n - 1 - i]) backok = false;
+        }
         int peh = -2, pev = -1;
         if (n > 0) { auto e = pr.second; --e; peh = e->idx(); pev = e.valid() ? 1 : 0; }
         fprintf(OUT, "it_%s %ld %d %d %zu %d %d %d %zu", name, centre, laps, endeq ? 1 : 0, cnt, backok ? 1 : 0, peh, pev, n);
@@ -692,6 +701,7 @@ struct Driver {
         std::vector<int> lv = live(0);
         int mode = (int)rng.below(10);
         if (kind == "hex") return;   // hex growth handled by the hex driver
+        if (rng.chance(1, 16) && nV() + nE() + nF() + nC() < 60) { grow_ring(chk); return; }
         // glue a tet onto a free triangle, apex = new or existing vertex
         if (mode < 6) {
             std::vector<int> fr = free_hfs();
@@ -795,7 +805,60 @@ struct Driver {
         }
     }
 
+    // re-create something that is flagged deleted but not yet collected (deferred mode): the same edge in either
+    // direction, the same face from its vertices, a cell on the halffaces of a flagged cell.  Lookups must not hand out the
+    // flagged entity, and the later collect_garbage must not disturb the replacement.
+    bool gen_readd() {
+        if (!m.deferred_deletion_enabled()) return false;
+        int what = (int)rng.below(3);
+        if (what == 0) {
+            std::vector<int> c; for (int e = 0; e < nE(); ++e) if (!liveE(e) && liveV(from(2 * e)) && liveV(to(2 * e))) c.push_back(e);
+            if (c.empty()) return false;
+            int e = rng.pick(c); bool rev = rng.chance(1, 2);
+            if (rng.chance(1, 3)) exec(mk("enable_bu", {0, (long)rng.below(2)}));      // the search differs with / without vertex incidences
+            return exec(mk("add_edge", {rev ? to(2 * e) : from(2 * e), rev ? from(2 * e) : to(2 * e), 0}));
+        }
+        if (what == 1 && kind != "hex") {
+            std::vector<int> c;
+            for (int f = 0; f < nF(); ++f) { if (liveF(f)) continue; bool ok = !hf_hes(2 * f).empty(); for (int h : hf_hes(2 * f)) if (!liveV(from(h)) || !liveV(to(h))) ok = false; if (ok) c.push_back(f); }
+            if (c.empty()) return false;
+            int f = rng.pick(c); std::vector<int> w = hf_verts(2 * f + (int)rng.below(2));
+            if (kind == "tet" && w.size() != 3) return false;
+            Op op; op.name = "add_face_v"; op.a.push_back((long)w.size()); for (int v : w) op.a.push_back(v);
+            return exec(op);
+        }
+        if (kind == "hex") return false;
+        std::vector<int> c;
+        for (int x = 0; x < nC(); ++x) {
+            if (liveC(x)) continue;
+            bool ok = true;
+            for (auto h : m.cell(CellHandle(x)).halffaces()) if (!liveHF(h.idx()) || hf_in_live_cell(h.idx())) ok = false;
+            if (ok && !m.cell(CellHandle(x)).halffaces().empty()) c.push_back(x);
+        }
+        if (c.empty()) return false;
+        int x = rng.pick(c);
+        Op op; op.name = "add_cell"; op.a.push_back((long)rng.below(2)); op.a.push_back((long)m.cell(CellHandle(x)).halffaces().size());
+        for (auto h : m.cell(CellHandle(x)).halffaces()) op.a.push_back(h.idx());
+        return exec(op);
+    }
+    // a closed ring of k tetrahedra around a fresh axis edge (a,b): interior edge of valence k whose fan is closed;
+    // deleting one of its cells later opens the fan (C09: the boundary halfface must then come last)
+    void grow_ring(bool chk) {
+        int k = 3 + (int)rng.below(3);
+        int a = fresh_vertex(), b = fresh_vertex();
+        std::vector<int> p; for (int i = 0; i < k; ++i) p.push_back(fresh_vertex());
+        int c0 = nC();
+        for (int i = 0; i < k; ++i) if (!add_polyhedron(tet_faces(a, b, p[(size_t)i], p[(size_t)((i + 1) % k)]), chk)) return;
+        if (nC() != c0 + k || !rng.chance(2, 3)) return;
+        // open the ring again, in whatever deletion mode (or after switching it): the cell removed is mostly not the last one
+        if (rng.chance(1, 2)) { int x = fresh_vertex(), y = fresh_vertex(), z = fresh_vertex(), w = fresh_vertex(); add_polyhedron(tet_faces(x, y, z, w), chk); }
+        if (rng.chance(1, 2)) exec(mk("enable_deferred", {(long)rng.below(2)}));
+        if (rng.chance(1, 3)) exec(mk("enable_fast", {(long)rng.below(2)}));
+        exec(mk("delete_cell", {(long)(c0 + (int)rng.below((uint64_t)k))}));
+        if (rng.chance(1, 3)) exec(mk("collect_garbage", {}));
+    }
     void gen_delete() {
+        if (rng.chance(1, 5) && gen_readd()) return;
         int k = (int)rng.below(10);
         int kindIdx = k < 2 ? 0 : k < 4 ? 1 : k < 7 ? 2 : 3;
         std::vector<int> l = live(kindIdx);
@@ -942,7 +1005,7 @@ struct Driver {
         int w = (int)rng.below(100);
         int nent = nV() + nE() + nF() + nC();
         if (profile == "c11") {
-            if (w < 8) dirface(); else if (w < 35 || nent < 8) grow(); else if (w < 80) gen_malformed(); else if (w < 88) gen_delete(); else if (w < 94) gen_mode(); else { Op o = mk("add_edge", {0, 0, 0}); std::vector<int> lv = live(0); if (lv.size() >= 2) { o.a[0] = rng.pick(lv); o.a[1] = rng.pick(lv); if (o.a[0] != o.a[1]) exec(o); } }
+            if (w < 8) dirface(); else if (w < 35 || nent < 8) grow(); else if (w < 80) gen_malformed(); else if (w < 88) gen_delete(); else if (w < 94) gen_mode(); else if (rng.chance(1, 2) && gen_readd()) {} else { Op o = mk("add_edge", {0, 0, 0}); std::vector<int> lv = live(0); if (lv.size() >= 2) { o.a[0] = rng.pick(lv); o.a[1] = rng.pick(lv); if (o.a[0] != o.a[1]) exec(o); } }
         } else if (profile == "c17") {
             if (w < 30 || nent < 10) grow(); else if (w < 75) gen_swap(); else if (w < 85) gen_delete(); else if (w < 93) gen_mode(); else gen_prop();
         } else if (profile == "c09" || profile == "c10" || profile == "c05") {
